@@ -341,8 +341,8 @@ FILE_CONSTS = {
     "quick": ['MaxRecs = 1 MaxLen = 5 Alphabet = {"A", "c", "N"} Widths = {1, 2, 3, 5} Bufs = {1} Fixed = TRUE',
               'MaxRecs = 2 MaxLen = 3 Alphabet = {"A", "N"} Widths = {1, 2} Bufs = {1} Fixed = TRUE',
               'MaxRecs = 1 MaxLen = 4 Alphabet = {"R", "y", "G", "k"} Widths = {3} Bufs = {1} Fixed = TRUE'],
-    "thorough": ['MaxRecs = 1 MaxLen = 7 Alphabet = {"A", "c", "N"} Widths = {1, 2, 3, 4, 7} Bufs = {1} Fixed = TRUE',
-                 'MaxRecs = 2 MaxLen = 4 Alphabet = {"A", "n", "R"} Widths = {1, 2, 3} Bufs = {1} Fixed = TRUE',
+    "thorough": ['MaxRecs = 1 MaxLen = 6 Alphabet = {"A", "c", "N"} Widths = {1, 2, 3, 4, 6} Bufs = {1} Fixed = TRUE',
+                 'MaxRecs = 2 MaxLen = 3 Alphabet = {"A", "n", "R"} Widths = {1, 2} Bufs = {1} Fixed = TRUE',
                  'MaxRecs = 3 MaxLen = 2 Alphabet = {"A", "N"} Widths = {1, 2} Bufs = {1} Fixed = TRUE',
                  'MaxRecs = 1 MaxLen = 5 Alphabet = {"R", "y", "G", "k", "M", "b", "D", "h", "V", "S", "w"} Widths = {3} Bufs = {1} Fixed = TRUE'],
 }
